@@ -91,6 +91,40 @@ func RecordNames(P *Program, funcs []string) {
 		sigs[n] = funcSig(fn)
 	}
 	all["__sigs__"] = sigs
+	// the parameter names of every top-level function (receiver first), by which `argN` in a guard keeps
+	// meaning "the parameter that was N-th when the ledger was recorded" after parameters were swapped or
+	// one was added; and the values of the package-level constants, by which a renamed constant is found
+	pars := all["__params__"]
+	if pars == nil {
+		pars = map[string]string{}
+	}
+	for n, fn := range P.Funcs {
+		if fn == nil || fn.Parent() != nil || len(fn.Blocks) == 0 || !inModule(fn) {
+			continue
+		}
+		var ns []string
+		for _, p := range fn.Params {
+			ns = append(ns, p.Name())
+		}
+		pars[n] = strings.Join(ns, ",")
+	}
+	all["__params__"] = pars
+	consts := all["__consts__"]
+	if consts == nil {
+		consts = map[string]string{}
+	}
+	for _, pkg := range P.SSA.AllPackages() {
+		if pkg.Pkg == nil || !strings.HasPrefix(pkg.Pkg.Path(), ModPath) {
+			continue
+		}
+		rel := strings.TrimPrefix(pkg.Pkg.Path(), ModPath+"/")
+		for name, m := range pkg.Members {
+			if c, ok := m.(*ssa.NamedConst); ok && c.Value != nil && c.Value.Value != nil {
+				consts[rel+"."+name] = c.Value.Value.ExactString()
+			}
+		}
+	}
+	all["__consts__"] = consts
 	// field names of the module's own (hand-written) struct types, keyed by the sequence of field types:
 	// a field that was renamed is found again by its position (recordedFieldIndex)
 	flds := all["__fields__"]
@@ -658,10 +692,6 @@ func retargetFunc(P *Program, name string) *ssa.Function {
 	if os.Getenv("GVC_NO_RENAME") != "" {
 		return nil
 	}
-	base := loadBaseNames()[name]
-	if len(base) == 0 {
-		return nil
-	}
 	pkgOf := func(n string) string {
 		if i := strings.Index(n, ".("); i > 0 {
 			return n[:i]
@@ -671,38 +701,35 @@ func retargetFunc(P *Program, name string) *ssa.Function {
 		}
 		return ""
 	}
+	base := loadBaseNames()[name]
 	var cands []*ssa.Function
-	// the functions of the package, plus what they call or create that the package table does not list
-	// (instances of generic functions and their closures)
-	pool := map[string]*ssa.Function{}
-	var addFn func(fn *ssa.Function, depth int)
-	addFn = func(fn *ssa.Function, depth int) {
-		if fn == nil || len(fn.Blocks) == 0 || depth > 3 {
-			return
-		}
-		n := CanonName(fn)
-		if _, ok := pool[n]; ok {
-			return
-		}
-		if pkgOf(n) != pkgOf(name) {
-			return
-		}
-		pool[n] = fn
-		for _, an := range fn.AnonFuncs {
-			addFn(an, depth+1)
-		}
-		for _, b := range fn.Blocks {
-			for _, in := range b.Instrs {
-				if c, ok := in.(ssa.CallInstruction); ok {
-					if f := c.Common().StaticCallee(); f != nil {
-						addFn(f, depth+1)
-					}
-				}
-			}
+	pool := reachablePool(P, pkgOf(name))
+	// a function that was renamed (applyFuncRenames) and is only reachable through calls -- an instance of
+	// a generic function -- already answers to the recorded name
+	// (its one instance, when it is generic: a contract on a generic function is checked on its instances)
+	var inst []*ssa.Function
+	for n, fn := range pool {
+		if strings.HasPrefix(n, name+"[") && !strings.Contains(n[len(name):], "$") {
+			inst = append(inst, fn)
 		}
 	}
-	for _, fn := range P.Funcs {
-		addFn(fn, 0)
+	if os.Getenv("GVC_TRACE_RETARGET") != "" {
+		var ks []string
+		for n := range pool {
+			if strings.Contains(n, "reorder") {
+				ks = append(ks, n)
+			}
+		}
+		fmt.Fprintf(os.Stderr, "retarget %s: instances=%d pool~%v\n", name, len(inst), ks)
+	}
+	if len(inst) == 1 {
+		return inst[0]
+	}
+	if fn, ok := pool[name]; ok && fn.TypeParams().Len() == 0 {
+		return fn
+	}
+	if len(base) == 0 {
+		return nil
 	}
 	for n, fn := range pool {
 		if !isNewHelper(n, fn) {
@@ -904,7 +931,11 @@ func funcSig(fn *ssa.Function) string {
 		ks = append(ks, k+"="+v)
 	}
 	sort.Strings(ks)
-	h := sha1.Sum([]byte(fn.Signature.String() + "\n" + strings.Join(ks, "\n")))
+	var ps []string
+	for _, p := range fn.Params {
+		ps = append(ps, p.Type().String()) // the receiver is the first parameter: a method and the plain function it was turned into agree
+	}
+	h := sha1.Sum([]byte(strings.Join(ps, ",") + "->" + fn.Signature.Results().String() + "\n" + strings.Join(ks, "\n")))
 	return hex.EncodeToString(h[:8])
 }
 
@@ -947,15 +978,26 @@ func applyFuncRenames(P *Program) {
 	if len(missing) == 0 {
 		return
 	}
+	all := map[string]*ssa.Function{}
+	for n, fn := range P.Funcs {
+		all[n] = fn
+	}
+	for pkg := range missing {
+		for n, fn := range reachablePool(P, pkg) {
+			if _, ok := all[n]; !ok {
+				all[n] = fn // instances of generic functions reached through calls only
+			}
+		}
+	}
 	var names []string
-	for n := range P.Funcs {
+	for n := range all {
 		names = append(names, n)
 	}
 	sort.Strings(names)
 	renamed := false
 	used := map[string]bool{}
 	for _, n := range names {
-		fn := P.Funcs[n]
+		fn := all[n]
 		if fn == nil || fn.Parent() != nil || len(fn.Blocks) == 0 || !inModule(fn) {
 			continue
 		}
@@ -976,7 +1018,8 @@ func applyFuncRenames(P *Program) {
 		var hit []string
 		for _, c := range cands {
 			// a method stays a method of the same receiver; instances match instances
-			if sigs[c] == sig && !used[c] && recvPart(c) == recvPart(n) && typeArgsOf(c) == typeArgsOf(n) {
+			sameKind := recvPart(c) == recvPart(n) || recvPart(c) == "" || recvPart(n) == "" // a method may have become a function or the reverse (the fingerprint covers the receiver's type)
+			if sigs[c] == sig && !used[c] && sameKind && typeArgsOf(c) == typeArgsOf(n) {
 				hit = append(hit, c)
 			}
 		}
@@ -1036,7 +1079,7 @@ func structKey(st *types.Struct) (string, string) {
 // number of fields whose names agree with st's position by position in all but at most two places (types
 // are not compared: an instance of a generic struct prints them differently); it must be the only such one.
 func recordedFieldIndex(st *types.Struct, name string) int {
-	if os.Getenv("GVC_NO_RENAME") != "" || st.NumFields() < 3 {
+	if os.Getenv("GVC_NO_RENAME") != "" || st.NumFields() < 2 {
 		return -1
 	}
 	n := st.NumFields()
@@ -1061,7 +1104,7 @@ func recordedFieldIndex(st *types.Struct, name string) int {
 				at = i
 			}
 		}
-		if at < 0 || agree < n-2 {
+		if at < 0 || agree < n-2 || (n < 4 && agree < n-1) {
 			continue
 		}
 		switch {
@@ -1126,4 +1169,128 @@ func recordedCalls(key, pat string) int {
 		}
 	}
 	return total
+}
+
+// recordedParamIndex: where the parameter that was i-th in the recorded function `name` sits in the
+// current function fn (receiver first), or i itself when nothing is recorded or the names do not tell.
+func recordedParamIndex(name string, fn *ssa.Function, i int) int {
+	if fn == nil || os.Getenv("GVC_NO_RENAME") != "" {
+		return i
+	}
+	rec, ok := loadBaseNames()["__params__"][name]
+	if !ok {
+		rec, ok = loadBaseNames()["__params__"][stripTypeArgs(name)] // an instance: the generic function's names
+	}
+	if !ok {
+		return i
+	}
+	names := strings.Split(rec, ",")
+	if i >= len(names) || names[i] == "" || names[i] == "_" {
+		return i
+	}
+	if i < len(fn.Params) && fn.Params[i].Name() == names[i] {
+		return i
+	}
+	// the recorded names must all still be there (a permutation, possibly with additions)
+	at := -1
+	for j, p := range fn.Params {
+		if p.Name() == names[i] {
+			at = j
+		}
+	}
+	if at < 0 {
+		return i
+	}
+	for _, rn := range names {
+		found := false
+		for _, p := range fn.Params {
+			if p.Name() == rn {
+				found = true
+			}
+		}
+		if !found {
+			return i // a rename rather than a reordering: positions are kept
+		}
+	}
+	return at
+}
+
+// recordedConst: the current name of a package-level constant that was called `name` in package rel when
+// the ledger was recorded and no longer exists: the one constant of that package that has its value and
+// is not itself a recorded name.
+func recordedConst(pkg *ssa.Package, name string) *ssa.NamedConst {
+	if pkg == nil || os.Getenv("GVC_NO_RENAME") != "" {
+		return nil
+	}
+	rel := strings.TrimPrefix(pkg.Pkg.Path(), ModPath+"/")
+	consts := loadBaseNames()["__consts__"]
+	want, ok := consts[rel+"."+name]
+	if !ok {
+		return nil
+	}
+	if _, still := pkg.Members[name]; still {
+		return nil
+	}
+	var hit *ssa.NamedConst
+	n := 0
+	for cn, m := range pkg.Members {
+		c, ok := m.(*ssa.NamedConst)
+		if !ok || c.Value == nil || c.Value.Value == nil || c.Value.Value.ExactString() != want {
+			continue
+		}
+		if _, recorded := consts[rel+"."+cn]; recorded {
+			continue
+		}
+		hit = c
+		n++
+	}
+	if n == 1 {
+		return hit
+	}
+	return nil
+}
+
+// reachablePool: the functions of package pkg, plus what they call or create that the program's function
+// table does not list (instances of generic functions and their closures), by canonical name.
+func reachablePool(P *Program, pkg string) map[string]*ssa.Function {
+	pkgOf := func(n string) string {
+		if i := strings.Index(n, ".("); i > 0 {
+			return n[:i]
+		}
+		if i := strings.LastIndex(stripTypeArgs(n), "."); i > 0 {
+			return n[:i]
+		}
+		return ""
+	}
+	pool := map[string]*ssa.Function{}
+	var addFn func(fn *ssa.Function, depth int)
+	addFn = func(fn *ssa.Function, depth int) {
+		if fn == nil || len(fn.Blocks) == 0 || depth > 3 {
+			return
+		}
+		n := CanonName(fn)
+		if _, ok := pool[n]; ok {
+			return
+		}
+		if pkgOf(n) != pkg {
+			return
+		}
+		pool[n] = fn
+		for _, an := range fn.AnonFuncs {
+			addFn(an, depth+1)
+		}
+		for _, b := range fn.Blocks {
+			for _, in := range b.Instrs {
+				if c, ok := in.(ssa.CallInstruction); ok {
+					if f := c.Common().StaticCallee(); f != nil {
+						addFn(f, depth+1)
+					}
+				}
+			}
+		}
+	}
+	for _, fn := range P.Funcs {
+		addFn(fn, 0)
+	}
+	return pool
 }
